@@ -64,15 +64,23 @@ def main_explore(pid, tier, seed, m, mutation_only=False, extra_oracle=None):
                 coord = f"{o['name']}.{f['name']}"
                 if coord not in renv["resolvers"] and rng.random() < 0.35:
                     renv["resolvers"][coord] = {"k": "const", "v": sg.value_for(f["type"], 3, 0.05)} if rng.random() < 0.7 else {"k": "raise", "v": {"x": False, "m": "nested boom", "e": []}}
+        mixed = [] if mutation_only else sg.mixed_scenario(renv)
+        if mixed:
+            # the merged composite field gets a gated resolver on every runtime type: its completion order is scheduled
+            for on in sg.mixed[1]:
+                renv["resolvers"][f"{on}.{sg.mixed[2]['name']}"] = {"k": "parentKey", "key": sg.mixed[2]["name"]}
         engines = []
         for cfg in (CONFIGS if tier != "quick" else rng.sample(CONFIGS, 4)):
             engines.append((cfg, loop.run_until_complete(er.build_engine(sg.model(), renv, cfg=cfg))))
         for di in range(ndocs):
             if time.time() - t0 > (110 if tier == "quick" else 1500): break
-            dg = DocGen(sg, rng, op_kinds=("mutation",) if mutation_only else (("query", "mutation") if sg.mutation else ("query",)))
-            q, ops, opvars = dg.document(n_ops=1)
-            variables, _ = dg.variables_for(opvars[0], invalid=0.0)
-            opn = ops[0][1]
+            if di < len(mixed):
+                q, variables, opn = mixed[di], None, None
+            else:
+                dg = DocGen(sg, rng, op_kinds=("mutation",) if mutation_only else (("query", "mutation") if sg.mutation else ("query",)))
+                q, ops, opvars = dg.document(n_ops=1)
+                variables, _ = dg.variables_for(opvars[0], invalid=0.0)
+                opn = ops[0][1]
             outcomes = {}
             per_cfg = {}
             for cfg, b in engines:
